@@ -8,12 +8,23 @@ import srvkit
 
 ID = "C08"
 LEAN_MODEL_TARGETS = ["drv_c08"]
-LEAN_PROOF_TARGETS = ["PyroProps.C08"]
-AUDIT_FILES = ["PyroModel/Server.lean", "PyroModel/Gen/C08.lean", "PyroProps/C08.lean"]
+LEAN_PROOF_TARGETS = ["PyroProps.C08", "PyroProps.C08Src"]
+AUDIT_FILES = ["PyroModel/Server.lean", "PyroModel/Gen/C08.lean", "PyroProps/C08.lean",
+               "PyroModel/Handshake.lean", "PyroModel/Gen/C08Src.lean", "PyroProps/C08Src.lean"]
 THEOREMS = ["Pyro.C08.C08_accept_iff", "Pyro.C08.C08_fail_reply_and_close", "Pyro.C08.C08_no_exec_before",
             "Pyro.C08.C08_pipelined_dead", "Pyro.C08.C08_failed_then_anything", "Pyro.C08.C08_daemon",
-            "Pyro.C08.C08_gen_facts", "Pyro.C08.C08_gen_except_rule"]
-SUITES = ["history"]
+            "Pyro.C08.C08_gen_facts", "Pyro.C08.C08_gen_except_rule",
+            # Daemon._handshake transcribed from the source on every run (c08_tr.py -> Gen/C08Src.lean): equal to the statement-level
+            # model for every behaviour of every collaborator; what that model does (accepts iff every step incl. the validator
+            # succeeded, in order; False = nothing or one CONNECTFAIL; a refusing validator accepts no payload shape); it IS
+            # Server.handshake on the worlds of history items; the main theorems restated over the transcription
+            "Pyro.C08.C08_handshake_translated", "Pyro.C08.C08_hs_accept_iff", "Pyro.C08.C08_hs_fail_reply",
+            "Pyro.C08.C08_hs_refusing_validator", "Pyro.C08.C08_hs_validator_before_lookup", "Pyro.C08.C08_hs_never_raises",
+            "Pyro.C08.C08_hs_refines",
+            "Pyro.C08.C08_source_accept_iff", "Pyro.C08.C08_source_fail_reply", "Pyro.C08.C08_source_refusing_validator",
+            "Pyro.C08.C08_source_validator_before_lookup", "Pyro.C08.C08_source_never_raises",
+            "Pyro.C08.C08_source_refines", "Pyro.C08.C08_source_no_exec_before", "Pyro.C08.C08_source_failed_then_anything"]
+SUITES = ["history", "handshake-src"]
 RULE = ("histories over 1-3 connections: first item of every kind (each message type, known/unknown serializer ids, handshake "
         "payload shapes, validator accept/raise/unserialisable reply, unknown object, garbage headers, cut at any offset, "
         "timeout) followed by 0-4 pipelined items (calls returning/raising every exception class, oneway, ping, unknown object, "
@@ -107,6 +118,15 @@ def extract():
 
     ids = sorted(serializers.serializers_by_id.keys())
     b = lambda x: "true" if x else "false"
+    # Daemon._handshake itself, transcribed statement by statement (c08_tr.py; raises Untranslatable = broken tie)
+    from props import c08_tr
+    src = c08_tr.handshake_src(server)
+    common.write_if_changed(os.path.join(common.VERIF, "lean", "PyroModel", "Gen", "C08Src.lean"),
+                            "-- GENERATED by harness/props/c08_tr.py from Pyro5/server.py (Daemon._handshake) — do not edit\n"
+                            "import PyroModel.Handshake\nnamespace Pyro.Gen.C08Src\nopen Pyro.Handshake\n\n"
+                            "/-- `Daemon._handshake(self, conn, denied_reason=None)` transcribed from the source: collaborators = fields of `w`,\n"
+                            "    locals renamed v<first binding>_<version>, the try statement = `handler0` / `after0` -/\n"
+                            + src + "\nend Pyro.Gen.C08Src\n")
     except_rule = translate_except_rule(server)
     return f"""-- GENERATED by harness/props/c08.py from Pyro5/server.py, svr_threads.py, svr_multiplex.py — do not edit
 namespace Pyro.Gen.C08
@@ -288,6 +308,9 @@ class Gen:
         if b[0] == "handshake" and (r.random() < 0.5 or not b[2]):
             m["extra"] = r.choice([{"meta": False}, {"meta": 0}, {"meta": None}, {"meta": True}, {"object_id": "target"},
                                    {"flags": 1, "meta": ""}])
+        if b[0] == "handshake" and b[1] and r.random() < 0.3:
+            # the shape of the payload dict itself: entries missing, None / odd values (see eff_body)
+            m["shape"] = r.choice(SHAPES)
         if r.random() < 0.05:
             # every field right except the magic number at the end of the header: malformed, whatever else it says
             m["magic"] = r.choice([0x0000, 0xffff, 0x4dc4, 0xc54d, 0x4d00])
@@ -305,6 +328,9 @@ class Gen:
                                   "body": ("handshake", True, True, "accept")})]
                 if r.random() < 0.06:
                     items[0][1]["magic"] = r.choice([0x0000, 0xffff, 0x4dc4, 0xc54d, 0x4d00])
+                elif r.random() < 0.12:
+                    # an otherwise perfect CONNECT whose payload dict has another shape
+                    items[0][1]["shape"] = r.choice(SHAPES)
             for _ in range(r.choice([0, 1, 2, 3, 4])):
                 items.append(self.item(False))
             if r.random() < 0.4:
@@ -320,6 +346,77 @@ class Gen:
         return nconn, evs
 
 
+# shapes of the CONNECT payload dict (rendered by render(), read by eff_body()):
+#   nohs / empty / onlyextra: no "handshake" entry (KeyError before the validator is asked: refused)
+#   noobj: no "object" entry; objnone / objint / objlist: an "object" entry that names no registered object (refused AFTER the validator)
+#   hsnone / hsfalse / hsdict: a "handshake" entry with another value: whatever it is, it is the validator that decides (the rig's accepts)
+SHAPES = ["nohs", "nohs", "empty", "onlyextra", "noobj", "noobj", "objnone", "objint", "objlist", "hsnone", "hsfalse", "hsdict"]
+
+
+def eff_body(m):
+    """the body as the model sees it: what the payload's shape means for (well-formed, object known, validator)"""
+    b = m["body"]
+    s = m.get("shape")
+    if b[0] != "handshake" or not s or not b[1]:
+        return b
+    _, wf, ok, val = b
+    if s in ("nohs", "empty", "onlyextra"):
+        wf = False
+    elif s in ("noobj", "objnone", "objint", "objlist"):
+        ok = False
+    elif s in ("hsnone", "hsfalse", "hsdict"):
+        val = "accept"
+    else:
+        raise ValueError("unknown payload shape %r" % (s,))
+    return ("handshake", wf, ok, val)
+
+
+def render(m):
+    """bytes of a message; srvkit.render_msg except for CONNECT payload dicts of another shape"""
+    s = m.get("shape")
+    b = m["body"]
+    from Pyro5 import protocol, serializers
+    ser = serializers.serializers_by_id.get(m["ser"])
+    if b[0] != "handshake" or not s or not b[1] or ser is None:
+        return srvkit.render_msg(m)
+    _, wf, objknown, val = b
+    d = {"handshake": {"accept": "accept", "raises": "raise", "unser": "unser"}[val], "object": "target" if objknown else "nosuchobject"}
+    d.update(m.get("extra") or {})
+    if s in ("nohs", "onlyextra"):
+        d.pop("handshake")
+        if s == "onlyextra":
+            d.pop("object")
+            d["hand_shake"] = "accept"
+    elif s == "empty":
+        d = {}
+    elif s == "noobj":
+        d.pop("object")
+    elif s == "objnone":
+        d["object"] = None
+    elif s == "objint":
+        d["object"] = 7
+    elif s == "objlist":
+        d["object"] = ["target"]
+    elif s == "hsnone":
+        d["handshake"] = None
+    elif s == "hsfalse":
+        d["handshake"] = False
+    elif s == "hsdict":
+        d["handshake"] = {"user": "x", "n": [1, 2]}
+    else:
+        raise ValueError("unknown payload shape %r" % (s,))
+    flags = protocol.FLAGS_ONEWAY if m.get("oneway") else 0
+    ann = {k: b"rq" for k in m.get("ann", [])}
+    from Pyro5.callcontext import current_context
+    import uuid
+    old = current_context.correlation_id
+    current_context.correlation_id = uuid.UUID(int=m["corr"]) if m.get("corr") else None
+    try:
+        return bytes(protocol.SendingMessage(m["type"], flags, m["seq"], m["ser"], ser.dumps(d), annotations=ann).data)
+    finally:
+        current_context.correlation_id = old
+
+
 def item_tokens(it):
     if it[0] == "garbage":
         return ["G"]
@@ -331,7 +428,7 @@ def item_tokens(it):
     if m.get("magic") is not None:
         return ["G"]            # a message with a wrong magic number is garbage
     toks = ["M", str(m["type"]), str(m["ser"]), str(m["seq"]), "1" if m["oneway"] else "0"]
-    b = m["body"]
+    b = eff_body(m)
     if b[0] == "undecodable":
         toks += ["US" if (len(b) > 1 and b[1] == "security" and m["ser"] in (1, 2, 3, 4)) else "U"]
     elif b[0] == "handshake":
@@ -401,16 +498,44 @@ def item_bytes(it, first=False):
         return full[:k], ("reset" if (len(it) > 2 and it[2] == "reset") else "eof")
     if it[0] == "timeout":
         return b"", "timeout"
-    data = srvkit.render_msg(it[1])
+    data = render(it[1])
     if it[1].get("magic") is not None:
         data = data[:38] + int(it[1]["magic"]).to_bytes(2, "big") + data[40:]
     return data, None
 
 
-def run_real(servertype, nconn, evs, hook_raises=(), linger=None, collect=False, commtimeout=0.0):
+DENY_EXC = ["ValueError", "KeyError", "RuntimeError", "AssertionError", "LookupError", "OSError", "errors.SecurityError",
+            "errors.ProtocolError", "errors.CommunicationError", "errors.TimeoutError", "errors.DaemonError", "errors.SerializeError"]
+ACCEPT_VALUES = [None, False, 0, "", [], {"k": 1}, "hello", 1.5]
+
+
+def install_validator(rig, validator):
+    """the daemon's validator for this run: ("deny", exception class name): raises for whatever it is shown;
+    ("value", v): decides as the rig's own validator does and, where that accepts, returns v (falsy or not: returning IS accepting)"""
+    kind, arg = validator
+    inner = rig.daemon.validateHandshake
+    if kind == "deny":
+        from Pyro5 import errors
+        import builtins
+        cls = getattr(errors, arg.split(".")[1]) if arg.startswith("errors.") else getattr(builtins, arg)
+
+        def v(conn, data):
+            raise cls("refused by the validator")
+    elif kind == "value":
+        def v(conn, data):
+            r = inner(conn, data)
+            return arg if r == "hello" else r
+    else:
+        raise ValueError("unknown validator mode %r" % (validator,))
+    rig.daemon.validateHandshake = v
+
+
+def run_real(servertype, nconn, evs, hook_raises=(), linger=None, collect=False, commtimeout=0.0, validator=None):
     rig = srvkit.Rig(servertype, linger=linger, commtimeout=commtimeout)
     rig.hook_raises = set(hook_raises)
     try:
+        if validator:
+            install_validator(rig, validator)
         seen = set()
         for c, it in evs:
             data, ending = item_bytes(it, first=c not in seen)
@@ -505,7 +630,7 @@ def _run(ctx, name, n, do_model):
                              "before the handshake validator had accepted it (first reply %r)"
                              % (st, "/".join(sorted(set(o["premature"]))), o["replies"][:1]), cases[-1])
                 good_first = (first[0] == "msg" and first[1]["type"] == 1 and first[1]["ser"] in (1, 2, 3, 4)
-                              and first[1]["body"] == ("handshake", True, True, "accept") and first[1].get("magic") is None)
+                              and eff_body(first[1]) == ("handshake", True, True, "accept") and first[1].get("magic") is None)
                 if accepted and not good_first:
                     ctx.fail("handshake-accepted-wrongly", "%s server answered CONNECTOK to first item %r" % (st, first), cases[-1])
                 if not good_first:
@@ -533,6 +658,26 @@ def _run(ctx, name, n, do_model):
             m = model_line_c08(o)
             if r != m:
                 ctx.mismatch("history", {"line": l, "servertype": c["servertype"], "case": c}, r, m)
+        # the TRANSCRIPTION of Daemon._handshake (Gen/C08Src.lean) on the first item of every connection against what the real
+        # function answered: first reply (type, seq, serializer) or none, and whether the connection was accepted
+        want = {}
+        for r, c in zip(reals, cases):
+            firsts = {}
+            for cc, it in c["evs"]:
+                firsts.setdefault(cc, it)
+            parts = r.split(" ; ")
+            for cc, it in firsts.items():
+                f = parts[cc].split("|")
+                rep = f[1].split(",")[0] if f[1] else ""
+                real = ("%s|%d" % (":".join(rep.split(":")[:3]), 1 if rep.startswith("2:") else 0)) if rep else "-|0"
+                want.setdefault("hs " + " ".join(item_tokens(it)), set()).add((real, c["servertype"]))
+        hl = sorted(want)
+        houts = common.run_driver("drv_c08", hl)
+        ctx.corr_cases += len(hl)
+        for l, o in zip(hl, houts):
+            for real, st in sorted(want[l]):
+                if real != o:
+                    ctx.mismatch("handshake-src", {"line": l, "servertype": st}, real, o)
 
 
 # ---- the set of registered objects changes while clients connect ------------------------------------
@@ -636,6 +781,99 @@ def _registry(ctx, n):
                 ctx.nontriv(("registry", st, tuple(steps)))
 
 
+# ---- other validators: one that refuses everybody (any exception class), one that accepts with any return value ----------
+def _validators(ctx, n):
+    rng = ctx.sub_rng("validators")
+    g = Gen(rng)
+    for i in range(n):
+        nconn, evs = g.history()
+        validator = ("deny", rng.choice(DENY_EXC)) if i % 3 != 2 else ("value", rng.choice(ACCEPT_VALUES))
+        for st in ("thread", "multiplex"):
+            case = {"servertype": st, "nconn": nconn, "evs": evs, "validator": list(validator)}
+            try:
+                obs, res, pool = run_real(st, nconn, evs, validator=validator)
+            except srvkit.Stuck as x:
+                ctx.fail("stuck:" + st, "the %s server got stuck on a history (validator %r): %r" % (st, validator, x), case)
+                continue
+            ctx.evaluations += 1
+            ctx.count("validator:" + validator[0])
+            for c, o in enumerate(obs):
+                if o is None:
+                    continue
+                first = next((it for cc, it in evs if cc == c), None)
+                good_first = (validator[0] == "value" and first[0] == "msg" and first[1]["type"] == 1 and first[1]["ser"] in (1, 2, 3, 4)
+                              and eff_body(first[1]) == ("handshake", True, True, "accept") and first[1].get("magic") is None)
+                what = "validator %s, first item %r" % ("that refuses everybody with " + validator[1] if validator[0] == "deny"
+                                                        else "that accepts by returning %r" % (validator[1],), item_tokens(first))
+                if first[0] == "cut" and not good_first:
+                    # the peer went away inside its first message: no reply can be demanded, everything else can
+                    if o["execs"] or (o["replies"] and o["replies"][0][0] == 2):
+                        ctx.fail("exec-before-handshake" if o["execs"] else "handshake-accepted-wrongly",
+                                 "%s server: %s: replies %r execs %r" % (st, what, o["replies"], o["execs"]), case)
+                    if o["sockclosed"] < 1:
+                        ctx.fail("not-closed-after-failed-handshake", "%s server: %s: connection left open" % (st, what), case)
+                else:
+                    _judge_conn(ctx, st, o, good_first, what, case)
+                if o.get("premature"):
+                    ctx.fail("daemon-object-before-validation", "%s server: %s: ran %s of 'Pyro.Daemon' before the validator had accepted"
+                             % (st, what, "/".join(sorted(set(o["premature"])))), case)
+                if len(evs) > nconn and first[0] == "msg" and first[1]["type"] == 1:
+                    ctx.nontriv(("validators", st, validator[0], str(validator[1]), hist_line(nconn, evs)))
+
+
+# ---- connections the thread-pool server DENIES (no free worker): _handshake(conn, denied_reason=...) ------------------------
+def run_denied(first, pipelined, reason):
+    """ClientConnectionJob.denyConnection(reason) - what the accept loop does with a connection when the pool is full - on a
+    connection whose peer has sent `first` and, behind it, `pipelined`, and then half-closed"""
+    from Pyro5 import svr_threads, serializers
+    rig = srvkit.Rig("thread")
+    try:
+        s = srvkit.FakeSock(0)
+        rig.socks.append(s)
+        s.feed(item_bytes(first, first=True)[0] + b"".join(item_bytes(it)[0] for it in pipelined))
+        s.end("eof")
+        job = svr_threads.ClientConnectionJob(s, ("fake", 0), rig.daemon)
+        job.denyConnection(reason)
+        reps = rig.replies(0)
+        texts = []
+        for r in reps:
+            try:
+                texts.append(serializers.serializers_by_id[r[2]].loads(r[6]))
+            except Exception as x:
+                texts.append("<undecodable: %r>" % (x,))
+        return {"replies": [(r[0], r[1], r[2], r[3]) for r in reps], "texts": texts, "execs": [t for _, t in rig.execs],
+                "sockclosed": s.closed, "premature": [m for _, m in rig.premature]}
+    finally:
+        rig.close()
+
+
+def _denied(ctx, n):
+    rng = ctx.sub_rng("denied")
+    g = Gen(rng)
+    for i in range(n):
+        first = g.item(True) if i % 2 else ("msg", {"type": 1, "ser": rng.choice([1, 2, 3, 4]), "seq": rng.randint(0, 65535), "oneway": False,
+                                                   "body": ("handshake", True, True, "accept")})
+        if first[0] != "msg":
+            continue
+        pipelined = [it for it in (g.item(False) for _ in range(rng.choice([0, 1, 2]))) if it[0] == "msg"]
+        reason = "no free workers (%d)" % rng.randint(0, 9999)
+        case = {"kind": "denied", "first": first, "pipelined": pipelined, "reason": reason}
+        try:
+            o = run_denied(first, pipelined, reason)
+        except srvkit.Stuck as x:
+            ctx.fail("stuck:thread", "denied connection: %r" % (x,), case)
+            continue
+        ctx.evaluations += 1
+        ctx.count("denied")
+        what = "a connection the server denies (%r), first item %r" % (reason, item_tokens(first))
+        _judge_conn(ctx, "thread", o, False, what, case)
+        wellformed = first[1]["type"] == 1 and first[1].get("magic") is None
+        if wellformed and len(o["replies"]) == 1 and o["replies"][0][0] == 3 and not (o["texts"] and isinstance(o["texts"][0], str) and reason in o["texts"][0]):
+            ctx.fail("denial-reason-lost", "thread server: %s: the CONNECTFAIL says %r" % (what, o["texts"][:1]), case)
+        if pipelined and wellformed:
+            ctx.nontriv(("denied", hist_line(1, [(0, first)] + [(0, it) for it in pipelined])))
+
+
 # ---- two handshakes in flight on the thread-pool server ---------------------------------------------
 def run_concurrent(first_ok, how):
     """connection 0's handler is held inside Daemon.annotations() (called while its handshake reply is built) until
@@ -706,6 +944,8 @@ def oracle(ctx):
     else:
         from props import c08_client
         c08_client.run(ctx)
+    _validators(ctx, ctx.n(30, 600))
+    _denied(ctx, ctx.n(20, 400))
     _registry(ctx, ctx.n(25, 400))
     _concurrent(ctx)
 
@@ -721,6 +961,13 @@ def replay(ctx, case):
             bad = bad or (known != accepted) or (not known and (o["execs"] or o["sockclosed"] < 1))
         print("VIOLATION reproduced" if bad else "not reproduced")
         return 1 if bad else 0
+    if c.get("kind") == "denied":
+        o = run_denied(_untuple(c["first"]), [_untuple(it) for it in c["pipelined"]], c["reason"])
+        print("denied connection:", o)
+        bad = bool(o["execs"]) or not (len(o["replies"]) == 1 and o["replies"][0][0] == 3) or o["sockclosed"] < 1 \
+            or not (o["texts"] and isinstance(o["texts"][0], str) and c["reason"] in o["texts"][0])
+        print("VIOLATION reproduced" if bad else "not reproduced")
+        return 1 if bad else 0
     if c.get("kind") == "concurrent":
         held, o0, o1 = run_concurrent(c["first_ok"], c["how"])
         print("held:", held, "\nconnection 0:", o0, "\nconnection 1:", o1)
@@ -732,9 +979,11 @@ def replay(ctx, case):
         print(json.dumps(case.get("no_longer_checks")))
         return 1
     evs = [(e[0], _untuple(e[1])) for e in c["evs"]]
-    obs, res, pool = run_real(c["servertype"], c["nconn"], evs)
-    print("history:", hist_line(c["nconn"], evs))
+    validator = tuple(c["validator"]) if c.get("validator") else None
+    obs, res, pool = run_real(c["servertype"], c["nconn"], evs, validator=validator)
+    print("history:", hist_line(c["nconn"], evs), ("validator: %r" % (validator,)) if validator else "")
     print("observed:", real_line(obs))
-    bad = any(o and ((o["execs"] and not (o["replies"] and o["replies"][0][0] == 2)) or o.get("premature")) for o in obs)
+    bad = any(o and ((o["execs"] and not (o["replies"] and o["replies"][0][0] == 2)) or o.get("premature")
+                     or (validator and validator[0] == "deny" and o["replies"] and o["replies"][0][0] == 2)) for o in obs)
     print("VIOLATION reproduced" if bad else "see observed replies above")
     return 1
